@@ -18,6 +18,18 @@ class _Null:
 _DEVNULL = _Null()
 
 
+def _exact(x):
+    if isinstance(x, (bytearray, memoryview)):
+        return (type(x).__name__, bytes(x))
+    if isinstance(x, (list, tuple)):
+        return (type(x).__name__,) + tuple(_exact(y) for y in x)
+    if isinstance(x, dict):
+        return ("dict",) + tuple(sorted((repr(k), _exact(v)) for k, v in x.items()))
+    if isinstance(x, (bytes, str)) and type(x) not in (bytes, str):
+        return (type(x).__name__, x)
+    return x
+
+
 class Outcome:
     __slots__ = ("kind", "value", "exc_type", "exc_msg", "errcode", "errmsg", "leftover")
 
@@ -31,14 +43,11 @@ class Outcome:
         self.leftover = None
 
     def key(self, with_err=True):
-        v = self.value
-        if isinstance(v, list):
-            v = tuple(v)
-        if isinstance(v, tuple):
-            v = tuple(tuple(x) if isinstance(x, list) else x for x in v)
-        k = (self.kind, v, self.exc_type, self.exc_msg)
+        """hashable and type-exact: b"x", bytearray(b"x") and "x" are three different results (they compare or hash differently in the
+        caller's hands), a list is not a tuple"""
+        k = (self.kind, _exact(self.value), self.exc_type, self.exc_msg)
         if with_err:
-            k += (self.errcode, self.errmsg)
+            k += (_exact(self.errcode), _exact(self.errmsg))
         return k + (self.leftover,)
 
     def brief(self):
